@@ -150,7 +150,12 @@ def stepR (d : Option DR) (toks : List String) : Option DR × String :=
   | some d, "forceblock" :: _ =>
     let ids := ((arg? toks "ids").getD "").splitOn "," |>.filterMap String.toNat? |>.filter (· < d.s.txs.length)
     let (s', r, sts) := forceBlockR d.s ids
-    if r == "ok" then (some { s := s', sts := d.sts ++ [sts] }, s!"h={s'.height} txs={",".intercalate (ids.map toString)}")
+    if r == "ok" then
+      -- the stand-in mempool rechecks what is still pending against the fresh speculative state (what mempool.Update does
+      -- after a foreign block: C15): invalidated transactions are dropped
+      let s0 := { s' with pending := [], poolImgs := [] }
+      let s'' := s'.pending.foldl (fun acc id => match acc.txs[id]? with | some t => (checkState acc id t).2 | none => acc) s0
+      (some { s := s'', sts := d.sts ++ [sts] }, s!"h={s'.height} txs={",".intercalate (ids.map toString)}")
     else (some { d with s := s' }, r)
   | some d, "receipts" :: _ =>
     let s := d.s
